@@ -813,6 +813,28 @@ func randomBatch(r *rand.Rand, id int, seed int64, maxInv int, dup bool) *Batch 
 		at := r.Intn(len(b.Invs) + 1)
 		b.Invs = append(b.Invs[:at], append([]string{"absentee_inv"}, b.Invs[at:]...)...)
 	}
+	if r.Intn(6) == 0 {
+		// an execute-list entry whose block is DAG-CBOR but not a UCAN, among well-formed invocations: it gets an error
+		// receipt (no capabilities) and the others are answered as usual
+		name := fmt.Sprintf("notucan%d", id)
+		cw.Specs = append(cw.Specs, &TokSpec{Name: name, NotUCAN: true})
+		at := r.Intn(len(b.Invs) + 1)
+		b.Invs = append(b.Invs[:at], append([]string{name}, b.Invs[at:]...)...)
+	}
+	if r.Intn(4) == 0 {
+		// a chain rooted at the SERVICE's own key for a resource the service does not own: service -> holder -> invoker.
+		// Nothing the service issues roots a chain on somebody else's resource, on a default-option server either.
+		far := int(ucan.Now()) + 1000000
+		victim, holder, invoker := cast.Ed("svcroot_victim"), cast.Ed("svcroot_holder"), cast.Ed("svcroot_invoker")
+		res := victim.DID.String()
+		d1 := &TokSpec{Name: "svcroot_d1", Issuer: service, Audience: holder, Exp: &far, Caps: []CapSpec{{Can: "store/add", With: res, Nb: Cav{}}}}
+		d2 := &TokSpec{Name: "svcroot_d2", Issuer: holder, Audience: invoker, Exp: &far, Caps: []CapSpec{{Can: "store/add", With: res, Nb: Cav{}}},
+			Proofs: []ProofRef{{Tok: "svcroot_d1", Inline: true}}}
+		iv := &TokSpec{Name: "svcroot_inv", Issuer: invoker, Audience: service, Exp: &far, Caps: []CapSpec{{Can: "store/add", With: res, Nb: Cav{}}},
+			Proofs: []ProofRef{{Tok: "svcroot_d2", Inline: true}}}
+		cw.Specs = append(cw.Specs, d1, d2, iv)
+		b.Invs = append(b.Invs, "svcroot_inv")
+	}
 	if rsa {
 		cw.Ctx.ParserKind = "ed+rsa"
 	}
